@@ -35,6 +35,12 @@
 (*            expressed in" covers units whose value comes from the registry   *)
 (*   Twin     the in-place form gives the numbers the copying form gave for   *)
 (*            the same request on the same object                             *)
+(*   TwinUnit ... and the unit the copying form gave: the same spelling and the *)
+(*            same registry (the harness projects the result's unit to its    *)
+(*            text and to whether it belongs to the registry the history's    *)
+(*            object was created in / the default registry / another one);    *)
+(*            compared between requests whose target was given as a string or *)
+(*            a Unit of the input's registry, or in the same form             *)
 (*   Inv/Path inside one equivalence (same keywords) all numbers observed for *)
 (*            one member dimension are equal: there-and-back, via an          *)
 (*            intermediate, repeated calls                                    *)
@@ -99,6 +105,8 @@ StepP(e) ==
   /\ (cov /\ o.k = "ok" /\ ~o.ueq) => Fail("Unit", e, [unit |-> o.unit])
   /\ (~copy /\ o.k = "ok" /\ \E p \in twins : Len(p.v) # Len(o.v) \/ \E i \in RepIdx : p.rep[i] /\ p.v[i] # o.v[i])
         => Fail("Twin", e, [inplace |-> o.approx, copy |-> {p.approx : p \in twins}])
+  /\ (~copy /\ o.k = "ok" /\ \E p \in twins : p.un # "" /\ (p.tf = e.tf \/ {p.tf, e.tf} \subseteq {"str", "uin"}) /\ (p.un # o.uname \/ p.ur # o.ureg))
+        => Fail("TwinUnit", e, [inplace |-> <<o.uname, o.ureg>>, copy |-> {<<p.un, p.ur>> : p \in twins}])
   /\ (consBad /\ ~formulaBad) => Fail(IF tb = od THEN "Inv" ELSE "Path", e, [observed |-> o.approx, earlier |-> seen0[tb]])
   \* bookkeeping of the observed object
   /\ LET moved == o.k = "ok" /\ e.fo /\ e.en # "to_value"
@@ -114,7 +122,7 @@ StepP(e) ==
                       ELSE seen0)
                 ELSE seen
      /\ direct' = IF moved THEN {}
-                  ELSE IF copy /\ o.k = "ok" /\ ta # tb THEN direct \cup {[eq |-> e.eq, k |-> e.k, tu |-> e.tu, v |-> o.v, rep |-> o.rep, approx |-> o.approx]}
+                  ELSE IF copy /\ o.k = "ok" /\ ta # tb THEN direct \cup {[eq |-> e.eq, k |-> e.k, tu |-> e.tu, v |-> o.v, rep |-> o.rep, approx |-> o.approx, un |-> o.uname, ur |-> o.ureg, tf |-> e.tf]}
                   ELSE direct
 
 \* T: the transcription's prediction on the observed object
